@@ -116,3 +116,82 @@ def layer_miri(root, pid, tier, seed, layer):
     out["coverage"] = agg
     out["evaluations"] = agg.get("runs", 0)
     return out
+
+
+def layer_miri_gxv(root, pid, tier, seed, layer):
+    """Runs the monitor itself (gxv CNN) under Miri on a small scale. x86_64 cannot be used: formatting an
+    object id reaches faster-hex's cpuid inline assembly, which Miri cannot interpret; the aarch64 target
+    has no such path (Miri interprets any target from rust-src). Monitors skip git/file-system parts
+    when GXV_NO_FS=1 / cfg!(miri)."""
+    nseeds = layer.get("seeds_quick", 1) if tier == "quick" else layer.get("seeds_thorough", 4)
+    budget = layer.get("budget_quick", 60) if tier == "quick" else layer.get("budget_thorough", 300)
+    out = {"name": "miri_gxv", "coverage": {}, "violations": [], "inconclusive": [], "evaluations": 0}
+    resdir = os.path.join(root, ".build", "results")
+    os.makedirs(resdir, exist_ok=True)
+    os.makedirs(os.path.join(root, "replays", pid), exist_ok=True)
+
+    def one(k):
+        res = os.path.join(resdir, "miri-%s-%d-%d.json" % (pid, os.getpid(), k))
+        e = _miri_env(root, seed * 1000 + k, layer.get("flags", ""))
+        e.update({"GXV_BUDGET_S": str(budget), "GXV_SCALE": str(layer.get("scale", 2)), "GXV_NO_FS": "1", "GXV_MIRI": "1",
+                  "GXV_REPLAY_DIR": os.path.join(root, "replays", pid)})
+        cmd = ["cargo", "+nightly", "miri", "run", "--offline", "-q", "--target", "aarch64-unknown-linux-gnu", "-p", "gxv", "--",
+               pid, "--tier", "quick", "--seed", str(seed * 7919 + k), "--out", res]
+        try:
+            p = subprocess.run(cmd, cwd=HARNESS(root), env=e, stdout=subprocess.PIPE, stderr=subprocess.PIPE, text=True,
+                               timeout=budget * 6 + 3600, start_new_session=True)
+            rc, se = p.returncode, p.stderr
+        except subprocess.TimeoutExpired:
+            rc, se = "timeout", ""
+        doc = None
+        if os.path.exists(res):
+            try:
+                doc = json.load(open(res))
+            except Exception:
+                pass
+            os.remove(res)
+        return k, rc, se, doc
+
+    results = [one(0)]
+    if nseeds > 1:
+        with concurrent.futures.ThreadPoolExecutor(max_workers=min(6, nseeds - 1)) as ex:
+            results += [f.result() for f in [ex.submit(one, k) for k in range(1, nseeds)]]
+    clean = 0
+    evals = 0
+    for k, rc, se, doc in results:
+        if rc == "timeout":
+            out["inconclusive"].append("miri run %d timed out" % k)
+            continue
+        if "Undefined Behavior" in se:
+            m = re.search(r"error: (Undefined Behavior: [^\n]*)", se)
+            kind = m.group(1) if m else "Undefined Behavior"
+            kind_norm = re.sub(r"alloc\d+|<\d+>|0x[0-9a-f]+|thread `[^`]*`|\d+", "N", kind)[:120]
+            site = "?"
+            for sm in re.finditer(r"--> (/repo/[^\s:]+):(\d+):\d+", se):
+                site = "%s:%s" % (sm.group(1)[len("/repo/"):], sm.group(2))
+                break
+            sig = "miri|%s|%s" % (site, kind_norm)
+            rp = os.path.join(root, "replays", pid, "miri-gxv-%d.txt" % k)
+            open(rp, "w").write(se[-8000:])
+            if not any(v["signature"] == sig for v in out["violations"]):
+                out["violations"].append({"signature": sig, "what": kind[:300], "replay": rp, "count": 1})
+            continue
+        if "unsupported operation" in se and doc is None:
+            m = re.search(r"error: unsupported operation: ([^\n]*)", se)
+            out["inconclusive"].append("miri cannot interpret this workload: %s" % (m.group(1)[:160] if m else "?"))
+            continue
+        if doc is None:
+            out["inconclusive"].append("miri run %d produced no result (rc=%s): %s" % (k, rc, se[-300:]))
+            continue
+        clean += 1
+        evals += doc.get("evaluations", 0)
+        for v in doc.get("violations", []):
+            v = dict(v)
+            if not any(x["signature"] == v["signature"] for x in out["violations"]):
+                out["violations"].append(v)
+        for r in doc.get("inconclusive", []):
+            out["inconclusive"].append("under miri: " + r)
+    out["coverage"] = {"runs": len(results), "runs_without_ub_report": clean, "evaluations_under_miri": evals,
+                       "target": "aarch64-unknown-linux-gnu", "flags": "-Zmiri-tree-borrows, isolation off"}
+    out["evaluations"] = evals
+    return out
